@@ -174,10 +174,25 @@ def toChromosome (par : Par) : Location → R Location
     | .chunk _ => optimizeLoc true l
   | loc => pure loc
 
-/-- `VariantInterval.lift_over_location` (parent with sequence).
-    `repaired = false` is the code AS IT IS.  `repaired = true` adds the proposed repair of F-C13b: an EmptyLocation
-    result is returned as it is instead of being handed to `liftover_location_to_seq_chunk_parent`. -/
-def lift1 (repaired : Bool) (par : Par) (ref : Seq) (v : Var) (loc : Location) : R Location :=
+/-- which text of the library a function mirrors:
+    * `current`  — the code AS IT IS in /repo now;
+    * `before`   — the text before the repairs of F-C13b (82ac85b) and F-C13c (c293a73); kept only so that the old
+                   defects stay on record as regression facts;
+    * `descending` — `current` plus the HYPOTHETICAL repair of the still open finding F-C13a (collections apply their
+                   variants in descending order); used only by the witness theorems. -/
+inductive Ver where
+  | before | current | descending
+  deriving DecidableEq, Repr
+
+/-- does this version return an EmptyLocation as it is (instead of handing it to the chunk lift, which raises)? -/
+def Ver.emptyReturn : Ver → Bool
+  | .before => false
+  | _ => true
+
+/-- `VariantInterval.lift_over_location` (parent with sequence).  Since 82ac85b (`current`): a location deleted
+    entirely by the variant is returned as the EmptyLocation; `before`: it was handed to
+    `liftover_location_to_seq_chunk_parent`, which raised. -/
+def lift1 (ver : Ver) (par : Par) (ref : Seq) (v : Var) (loc : Location) : R Location :=
   match loc with
   | .empty => pure .empty
   | _ => do
@@ -189,12 +204,11 @@ def lift1 (repaired : Bool) (par : Par) (ref : Seq) (v : Var) (loc : Location) :
       let nl ← (match loc with
                 | .single _ _ => liftSingle v loc
                 | _ => liftCompound v loc)
-      match repaired, nl with
+      match ver.emptyReturn, nl with
       | true, .empty => pure .empty
       | _, _ => reparent par altLen nl
 
-/-- the `for variant in self.variant_intervals` loops of `VariantIntervalCollection.lift_over_location`:
-    sequential application, each step on the output of the previous one -/
+/-- the `for variant in self.variant_intervals` loops BEFORE 82ac85b: no early exit -/
 def liftSeqSingle : List Var → Location → R Location
   | [], loc => pure loc
   | v :: vs, loc => do let l ← liftSingle v loc; liftSeqSingle vs l
@@ -203,7 +217,7 @@ def liftSeqCompound : List Var → Location → R Location
   | [], loc => pure loc
   | v :: vs, loc => do let l ← liftCompound v loc; liftSeqCompound vs l
 
-/-- the single-interval loop with the repair: stop as soon as nothing is left -/
+/-- the loops as they are now: `if location is EmptyLocation(): break` after every step -/
 def liftSeqSingleStop : List Var → Location → R Location
   | [], loc => pure loc
   | v :: vs, loc => do
@@ -212,28 +226,39 @@ def liftSeqSingleStop : List Var → Location → R Location
     | .empty => pure .empty
     | _ => liftSeqSingleStop vs l
 
+def liftSeqCompoundStop : List Var → Location → R Location
+  | [], loc => pure loc
+  | v :: vs, loc => do
+    let l ← liftCompound v loc
+    match l with
+    | .empty => pure .empty
+    | _ => liftSeqCompoundStop vs l
+
 /-- `VariantIntervalCollection.lift_over_location` (parent with sequence; `vs` sorted ascending).
-    `repaired = false`: the code AS IT IS — the variants are applied in ASCENDING order (F-C13a).
-    `repaired = true`: the proposed repair — DESCENDING order (`reversed(self.variant_intervals)`), and an
-    EmptyLocation is returned as it is (F-C13b). -/
-def liftN (repaired : Bool) (par : Par) (ref : Seq) (vs : List Var) (loc : Location) : R Location :=
+    `current`: sequential application in ASCENDING order (the open finding F-C13a), leaving the loop as soon as
+    nothing is left, and an EmptyLocation is returned as it is.  `before`: ascending, no early exit, the
+    EmptyLocation went into the chunk lift (which raised).  `descending`: like `current` over
+    `reversed(self.variant_intervals)` — the hypothetical repair of F-C13a. -/
+def liftN (ver : Ver) (par : Par) (ref : Seq) (vs : List Var) (loc : Location) : R Location :=
   match loc with
   | .empty => pure .empty
   | _ => do
     let loc ← toChromosome par loc
     let altLen := (altSeqN par.off ref vs).length
-    if repaired then do
-      let nl ← (match loc with
-                | .single _ _ => liftSeqSingleStop vs.reverse loc
-                | _ => liftSeqCompound vs.reverse loc)
-      match nl with
-      | .empty => pure .empty
-      | _ => reparent par altLen nl
-    else do
+    match ver with
+    | .before => do
       let nl ← (match loc with
                 | .single _ _ => liftSeqSingle vs loc
                 | _ => liftSeqCompound vs loc)
       reparent par altLen nl
+    | _ => do
+      let order := if ver = .descending then vs.reverse else vs
+      let nl ← (match loc with
+                | .single _ _ => liftSeqSingleStop order loc
+                | _ => liftSeqCompoundStop order loc)
+      match nl with
+      | .empty => pure .empty
+      | _ => reparent par altLen nl
 
 /-- one VariantInterval or a VariantIntervalCollection -/
 inductive Variants where
@@ -245,9 +270,9 @@ def Variants.altSeq (par : Par) (ref : Seq) : Variants → Seq
   | .one v => altSeq1 par.off ref v
   | .many vs => altSeqN par.off ref vs
 
-def Variants.lift (repaired : Bool) (par : Par) (ref : Seq) : Variants → Location → R Location
-  | .one v => lift1 repaired par ref v
-  | .many vs => liftN repaired par ref vs
+def Variants.lift (ver : Ver) (par : Par) (ref : Seq) : Variants → Location → R Location
+  | .one v => lift1 ver par ref v
+  | .many vs => liftN ver par ref vs
 
 /-! ### sequence extraction (Location.extract_sequence on a parent with sequence) -/
 
@@ -296,15 +321,15 @@ def rebuild (par : Par) (alt : Seq) (nl : Location) : R Shown := do
     pure ⟨st, chrom, rel, s⟩
 
 /-- `FeatureInterval.incorporate_variants` -/
-def incorporateFeature (repaired : Bool) (par : Par) (ref : Seq) (vs : Variants) (loc : Location) : R Shown := do
-  let nl ← vs.lift repaired par ref loc
+def incorporateFeature (ver : Ver) (par : Par) (ref : Seq) (vs : Variants) (loc : Location) : R Shown := do
+  let nl ← vs.lift ver par ref loc
   match nl with
   | .empty => throw .EmptyLocation
   | _ => rebuild par (vs.altSeq par ref) nl
 
 /-- `CDSInterval.incorporate_variants` (location part; frames are C05's subject) -/
-def incorporateCDS (repaired : Bool) (par : Par) (ref : Seq) (vs : Variants) (loc : Location) : R Shown := do
-  let nl ← vs.lift repaired par ref loc
+def incorporateCDS (ver : Ver) (par : Par) (ref : Seq) (vs : Variants) (loc : Location) : R Shown := do
+  let nl ← vs.lift ver par ref loc
   match nl with
   | .empty => throw .EmptyLocation
   | _ => do
@@ -312,12 +337,12 @@ def incorporateCDS (repaired : Bool) (par : Par) (ref : Seq) (vs : Variants) (lo
     if blocksLen sh.chrom = 0 then throw .InvalidCDSInterval else pure sh
 
 /-- `TranscriptInterval.incorporate_variants`: CDS first, then the exons, then the constructor's CDS bounds check -/
-def incorporateTranscript (repaired : Bool) (par : Par) (ref : Seq) (vs : Variants) (exons : Location)
+def incorporateTranscript (ver : Ver) (par : Par) (ref : Seq) (vs : Variants) (exons : Location)
     (cds : Option Location) : R (Shown × Option Shown) := do
   let newCds ← (match cds with
-                | some c => do let s ← incorporateCDS repaired par ref vs c; pure (some s)
+                | some c => do let s ← incorporateCDS ver par ref vs c; pure (some s)
                 | none => pure none)
-  let nl ← vs.lift repaired par ref exons
+  let nl ← vs.lift ver par ref exons
   match nl with
   | .empty => throw .EmptyLocation
   | _ => do
@@ -370,9 +395,10 @@ structure Coll where
 def vcfDicts (r : VcfRec) : List VarDict :=
   r.alts.map fun a => ⟨r.start, if r.start = r.«end» then r.«end» + 1 else r.«end», a.1, a.2, r.ps⟩
 
-/-- repair of F-C13c: `if getattr(sample.data, "PS", None) is not None` — a missing PS value is like no PS field -/
-def repairPS (repaired : Bool) (r : VcfRec) : VcfRec :=
-  if repaired then { r with ps := (match r.ps with | .missing => .absent | p => p) } else r
+/-- `if getattr(sample.data, "PS", None) is not None` (since c293a73): a missing PS value is like no PS field;
+    `before`: `hasattr(sample.data, "PS")` kept the None -/
+def readPS (ver : Ver) (r : VcfRec) : VcfRec :=
+  if ver = .before then r else { r with ps := (match r.ps with | .missing => .absent | p => p) }
 
 /-- `itertools.groupby(recs, key=CHROM)`: runs of consecutive records with the same CHROM -/
 def groupRuns : List VcfRec → List (List Char × List VcfRec)
@@ -416,8 +442,8 @@ def intStr (i : Int) : List Char := (toString i).toList
 
 /-- the collections of one chromosome; `none` = Python's sort would have to compare None (TypeError: outside
     the model, which has no internal errors) -/
-def vcfColls (repaired : Bool) (chrom : List Char) (recs : List VcfRec) : Option (List Coll) :=
-  let ds := (recs.map (repairPS repaired)).flatMap vcfDicts
+def vcfColls (ver : Ver) (chrom : List Char) (recs : List VcfRec) : Option (List Coll) :=
+  let ds := (recs.map (readPS ver)).flatMap vcfDicts
   let keyed := ds.map fun d => (sortKey d, d)
   if ds.length ≥ 2 ∧ keyed.any (fun p => p.1.isNone) then none
   else
@@ -434,9 +460,9 @@ def dictSet (k : List Char) (v : List Coll) : List (List Char × List Coll) → 
   | x :: xs => if x.1 = k then (k, v) :: xs else x :: dictSet k v xs
 
 /-- `convert_vcf_records_to_model` -/
-def convertVcf (repaired : Bool) (recs : List VcfRec) : Option (List (List Char × List Coll)) :=
+def convertVcf (ver : Ver) (recs : List VcfRec) : Option (List (List Char × List Coll)) :=
   (groupRuns recs).foldl (fun acc g =>
-    match acc, vcfColls repaired g.1 g.2 with
+    match acc, vcfColls ver g.1 g.2 with
     | some d, some cs => some (dictSet g.1 cs d)
     | _, _ => none) (some [])
 
